@@ -15,7 +15,11 @@ action (not only the operands) are snapshotted before and after each operation a
 import glob
 import hashlib
 import json
+import os
 import time
+
+for _v in ("OMP_NUM_THREADS", "OPENBLAS_NUM_THREADS", "MKL_NUM_THREADS"):
+    os.environ.setdefault(_v, "1")   # before NumPy is first imported: node arrays are object arrays, BLAS thread pools only cost time
 
 PROPERTY = "C14"
 LEVEL_TEXT = ("Lean theorems over Model/Names.lean: a node name is a function of (callable __name__, statics, input names) only; for an "
